@@ -96,7 +96,7 @@ func c03Confs(tier string) []c03Conf {
 func init() {
 	Register(Meta{
 		ID: "C03", Level: "exploration",
-		Rule:        "every profile with k<=K minCount validations, each listed under any subset of {violation,warning,info}, x undefined extra names per level x empty-level spelling x profile-name spelling; evaluated on the 2^k truth-table graph and on a graph with no target node under 15 report configurations (dateCreated flag x schema IRIs x 4 clocks); plus the reports the built command line tool leaves in one output file after every ordered pair of {violations+warnings, warnings only, no results} (absent file / longer junk first) and prints. Non-trivial = profile whose expected report has at least one result and whose expected severities are not all Violation, or that has no result at all on the no-target graph (both conforms values occur); distinct by profile text.",
+		Rule:        "every profile with k<=K minCount validations, each listed under any subset of {violation,warning,info}, x undefined extra names per level x empty-level spelling x profile-name spelling (8 names incl. quotes, non-ASCII, non-printable code points above U+FFFF, a BOM, 300 characters, formatting verbs); evaluated on the 2^k truth-table graph and on a graph with no target node under 15 report configurations (dateCreated flag x schema IRIs x 4 clocks); plus the reports the built command line tool leaves in one output file after every ordered pair of {violations+warnings, warnings only, no results} (absent file / longer junk first) and prints. Non-trivial = profile whose expected report has at least one result and whose expected severities are not all Violation, or that has no result at all on the no-target graph (both conforms values occur); distinct by profile text.",
 		Assumptions: []string{"atomic constraint minCount 1 behaves as 'has a value' (checked separately by C01 atom catalogue)"},
 	}, c03Gen, c03Run)
 }
@@ -107,7 +107,9 @@ func c03Gen(tier string, emit func(c03Case)) {
 	if tier == "thorough" {
 		maxK = 3
 	}
-	names := []string{"P", "My Profile 1.0"}
+	// the profile name is echoed as profileName: beside two plain names, names with characters that escaping or
+	// formatting helpers single out (only for k <= 1, they do not interact with the level structure)
+	names := []string{"P", "My Profile 1.0", "qu\"ote \\ back", "é日😀", "tag \U000E0067\U000F0001\U0001D173 chars", "\ufeffbom \u2028 sep", strings.Repeat("n", 300), "50%v %d {{x}} $message"}
 	for k := 0; k <= maxK; k++ {
 		total := 1
 		for i := 0; i < k; i++ {
@@ -123,7 +125,7 @@ func c03Gen(tier string, emit func(c03Case)) {
 			for extras := 0; extras < 8; extras++ {
 				for _, el := range []bool{false, true} {
 					for ni, nm := range names {
-						if ni > 0 && (extras != 0 || el) {
+						if ni > 0 && (extras != 0 || el) || ni > 1 && k > 1 {
 							continue
 						}
 						emit(c03Case{K: k, Levels: lv, Extras: extras, EmptyList: el, Name: nm})
